@@ -1,8 +1,10 @@
-from stages import cache, syncserve
+from stages import cache, syncserve, handover
 
 
 def run(ctx):
     # memory bound per signer + no cross eviction (partial cache)
     cache.run(ctx, cache.MON_C12)
+    # verified partials waiting for a busy aggregator are bounded by the blocking hand-over
+    handover.run(ctx)
     # storing a beacon / serving others never waits on a consumer that stopped reading (callback store)
     syncserve.run(ctx, syncserve.MON_C12_CALLBACKS)
